@@ -5,16 +5,17 @@
    - the statement is FALSE as written ([circulation_feasible_refuted]): it quantifies over arbitrary [network]
      records, and nothing forces (a) the capacities of the other depots / the arc bound to be non-negative, (b) the
      node the depot table names as start node of the overflow depot to be a start-depot node of that depot, (c) the
-     nodes listed as service trips of the type to be service nodes of that type;
+     nodes listed as service trips of the type to be service nodes;
    - [circulation_feasible_core]: the explicit flow "demand(x) units along overflow start depot -> x -> overflow end
      depot for every service trip / allotted slot x" is a feasible circulation under [circ_hyps];
-   - [circulation_feasible_under_wf]: the statement exactly as written plus the five missing hypotheses;
+   - [circulation_feasible_under_wf]: the statement exactly as written plus the four missing hypotheses E1-E4;
    - [circulation_feasible_checked]: the same with every hypothesis evaluated by an executable check;
-   - [circulation_feasible_loaded]: on networks loaded from valid instances every hypothesis is discharged except
-     "formation limit <= arc_upper_bound";
-   - [tight_arc_bound_refutes]: on a network LOADED from an instance that passes [valid_instance_b] the circulation can be
-     infeasible when a route segment's formation limit exceeds 100 and the vehicle type has no limit (the arcs are
-     capped at 100): the hypothesis "limit <= arc_upper_bound" of the statement is a real restriction. *)
+   - [circulation_feasible_loaded]: on networks loaded from valid instances every hypothesis is discharged, also
+     "formation limit <= arc_upper_bound": since the repair "fix: flow arcs carry as many vehicles as the longest
+     formation of the type's trips" the arc bound dominates the capacity of every node edge ([aub_ge_mf]);
+   - [tight_arc_bound_repaired]: the instance whose loaded network had an infeasible circulation under the pre-repair
+     arc bound (route segment's formation limit 200, type without limit, arcs capped at 100) now has a feasible one;
+     [tight_arc_bound_prefix_refutes] keeps the refutation against the pre-repair bound [arc_upper_bound_prefix]. *)
 From Coq Require Import List ZArith Bool Lia Permutation.
 From RS Require Import Base BaseFacts Network NetSpec NetFacts LoadStmts LoadFacts EndToEndStmts RenderFacts1 Tour Flow FlowStmts
   FlowFacts FlowFacts2.
@@ -295,15 +296,22 @@ Theorem circulation_feasible_core nw ty slots :
 Proof. intros H. exists (circ_flow nw ty slots). exact (circ_flow_feasible nw ty slots H). Qed.
 
 (** * The statement plus the missing hypotheses *)
-Lemma type_none_aub nw ty slots s :
-  vehicle_type_for nw s = ty -> maximal_formation_count_for nw s = None -> 100 <= arc_upper_bound nw ty slots.
+(* the arc bound dominates the type's formation limit (or 100), every slot allotment and the capacity of the node
+   edge of every service trip of the type *)
+Lemma aub_ge_tlim nw ty slots : type_limit_or_100 nw ty <= arc_upper_bound nw ty slots.
+Proof. unfold arc_upper_bound. etransitivity; [|apply fold_max_ge]. apply fold_max_ge. Qed.
+
+Lemma aub_ge_slot nw ty slots m c : In (m, c) slots -> c <= arc_upper_bound nw ty slots.
 Proof.
-  intros Et Hm. unfold arc_upper_bound.
-  assert (E : type_limit_or_100 nw ty = 100).
-  { unfold type_limit_or_100. unfold maximal_formation_count_for in Hm. rewrite Et in Hm.
-    destruct (vtype_of nw ty) as [vt|]; [|reflexivity]. destruct (vt_limit vt) as [l|]; [|reflexivity].
-    destruct (nd nw s) as [d|st|m|d]; try discriminate. destruct (st_limit st); discriminate. }
-  rewrite E. apply fold_max_ge.
+  intros Hin. unfold arc_upper_bound. etransitivity; [|apply fold_max_ge].
+  apply fold_max_in. change c with (snd (m, c)). apply in_map. exact Hin.
+Qed.
+
+Lemma aub_ge_mf nw ty slots s : In s (service_nodes nw ty) ->
+  match maximal_formation_count_for nw s with Some l => l | None => 100 end <= arc_upper_bound nw ty slots.
+Proof.
+  intros Hs. unfold arc_upper_bound. apply fold_max_in.
+  exact (in_map (fun s => match maximal_formation_count_for nw s with Some l => l | None => 100 end) _ _ Hs).
 Qed.
 
 Theorem circulation_feasible_under_wf :
@@ -329,17 +337,13 @@ Theorem circulation_feasible_under_wf :
     (* E4: the nodes listed as service trips are service nodes (or demand nothing) *)
     (forall s, In s (service_nodes nw ty) ->
        is_service (nd nw s) = true \/ number_of_vehicles_required_to_serve nw ty s = 0) ->
-    (* E5: a trip without formation limit (edge capacity 100) demands no more than an arc carries; implied by
-       "the trip is of the type whose network is built", see [circulation_feasible_under_typed] *)
-    (forall s, In s (service_nodes nw ty) -> maximal_formation_count_for nw s = None ->
-       Z.min (number_of_vehicles_required_to_serve nw ty s) 100 <= arc_upper_bound nw ty slots) ->
     exists f, feasible (build_flow_network nw ty slots) f = true.
 Proof.
-  intros nw ty slots WF Hty CD ND Hsl Hsv Hod Htot Hpr E1 E2 (dd & E3 & E3') E4 E5.
+  intros nw ty slots WF Hty CD ND Hsl Hsv Hod Htot Hpr E1 E2 (dd & E3 & E3') E4.
   apply circulation_feasible_core.
   assert (Hlo : forall s, In s (service_nodes nw ty) -> 0 <= lo nw ty s <= arc_upper_bound nw ty slots).
-  { intros s Hs. destruct (Hsv s Hs) as [Hr Hm]. specialize (E5 s Hs). unfold lo, service_edge. cbn [fe_lower].
-    destruct (maximal_formation_count_for nw s) as [l|]; [lia|]. specialize (E5 eq_refl). lia. }
+  { intros s Hs. destruct (Hsv s Hs) as [Hr Hm]. pose proof (aub_ge_mf nw ty slots s Hs) as Hmf.
+    unfold lo, service_edge. cbn [fe_lower]. destruct (maximal_formation_count_for nw s) as [l|]; lia. }
   assert (Hdem : forall x a, In (x, a) (demands nw ty slots) ->
             (In x (service_nodes nw ty) /\ a = lo nw ty x) \/ In (x, a) slots).
   { intros x a Hin. unfold demands in Hin. apply in_app_or in Hin. destruct Hin as [Hin|Hin]; [left|right; exact Hin].
@@ -369,7 +373,7 @@ Proof.
       rewrite Al. destruct (nd nw x); try discriminate; reflexivity.
 Qed.
 
-(* E4 and E5 follow from "the service trips of the type are service nodes of that type" *)
+(* E4 follows from "the nodes listed as service trips of the type are service nodes" *)
 Corollary circulation_feasible_under_typed :
   forall nw ty slots,
     net_wf_b nw = true -> In ty (type_ids nw) ->
@@ -386,13 +390,12 @@ Corollary circulation_feasible_under_typed :
     (forall d, In d (depot_ids nw) -> 0 <= capacity_of nw d ty) ->
     0 <= arc_upper_bound nw ty slots ->
     (exists d, nd nw (get_start_depot_node nw (overflow_depot_id nw)) = NStart d /\ dn_depot d = overflow_depot_id nw) ->
-    (forall s, In s (service_nodes nw ty) -> is_service (nd nw s) = true /\ vehicle_type_for nw s = ty) ->
+    (forall s, In s (service_nodes nw ty) -> is_service (nd nw s) = true) ->
     exists f, feasible (build_flow_network nw ty slots) f = true.
 Proof.
-  intros nw ty slots WF Hty CD ND Hsl Hsv Hod Htot Hpr E1 E2 E3 E45.
-  apply circulation_feasible_under_wf; auto.
-  - intros s Hs. left. exact (proj1 (E45 s Hs)).
-  - intros s Hs Hm. pose proof (type_none_aub nw ty slots s (proj2 (E45 s Hs)) Hm). lia.
+  intros nw ty slots WF Hty CD ND Hsl Hsv Hod Htot Hpr E1 E2 E3 E4.
+  apply (circulation_feasible_under_wf nw ty slots WF Hty CD ND Hsl Hsv Hod Htot Hpr E1 E2 E3).
+  intros s Hs. left. exact (E4 s Hs).
 Qed.
 
 (** * Executable reading of the hypotheses *)
@@ -433,20 +436,16 @@ Definition h_total : bool := total_lower_bound nw ty slots <=? capacity_of nw od
 Definition h_preds : bool :=
   forallb (fun x => mem_nid (get_start_depot_node nw od) (predecessors nw ty x) &&
                     mem_nid x (predecessors nw ty (get_end_depot_node nw od))) actl.
-(* the five missing ones *)
+(* the four missing ones *)
 Definition e1_caps : bool := forallb (fun d => 0 <=? capacity_of nw d ty) (depot_ids nw).
 Definition e2_aub : bool := 0 <=? aub.
 Definition e3_start : bool := match nd nw (get_start_depot_node nw od) with NStart d => dn_depot d =? od | _ => false end.
 Definition e4_service : bool :=
   forallb (fun s => is_service (nd nw s) || (number_of_vehicles_required_to_serve nw ty s =? 0)) (service_nodes nw ty).
-Definition e5_nolimit : bool :=
-  forallb (fun s => match maximal_formation_count_for nw s with
-                    | None => Z.min (number_of_vehicles_required_to_serve nw ty s) 100 <=? aub | Some _ => true end)
-          (service_nodes nw ty).
 
 Definition stmt_hyps_b : bool :=
   h_wf && h_codes && h_nondepot && h_slots && h_req && h_lim && h_od && h_total && h_preds.
-Definition extra_hyps_b : bool := e1_caps && e2_aub && e3_start && e4_service && e5_nolimit.
+Definition extra_hyps_b : bool := e1_caps && e2_aub && e3_start && e4_service.
 
 (* the hypotheses of the statement, as a proposition *)
 Definition stmt_hyps : Prop :=
@@ -490,8 +489,8 @@ Theorem circulation_feasible_checked :
   stmt_hyps_b = true -> extra_hyps_b = true -> exists f, feasible (build_flow_network nw ty slots) f = true.
 Proof.
   intros HS HE. destruct (stmt_hyps_b_sound HS) as (S1 & S2 & S3 & S4 & S5 & S6 & S7 & S8 & S9).
-  unfold extra_hyps_b in HE. rewrite !andb_true_iff in HE. destruct HE as [[[[E1 E2] E3] E4] E5].
-  unfold e1_caps in E1. unfold e4_service in E4. unfold e5_nolimit in E5. rewrite forallb_forall in E1, E4, E5.
+  unfold extra_hyps_b in HE. rewrite !andb_true_iff in HE. destruct HE as [[[E1 E2] E3] E4].
+  unfold e1_caps in E1. unfold e4_service in E4. rewrite forallb_forall in E1, E4.
   apply circulation_feasible_under_wf; auto.
   - intros d Hd. apply Z.leb_le. exact (E1 d Hd).
   - apply Z.leb_le. exact E2.
@@ -499,7 +498,6 @@ Proof.
     exists d. split; [reflexivity|]. apply Z.eqb_eq. exact E3.
   - intros s Hs. specialize (E4 s Hs). apply orb_true_iff in E4. destruct E4 as [A|A]; [left; exact A|right].
     apply Z.eqb_eq. exact A.
-  - intros s Hs Hm. specialize (E5 s Hs). rewrite Hm in E5. apply Z.leb_le. exact E5.
 Qed.
 End Check.
 
@@ -514,7 +512,7 @@ Proof.
     exact (conj S1 (conj S2 (conj S3 (conj S4 (conj S5 (conj S6 (conj S7 (conj S8 S9)))))))).
 Qed.
 
-(** * The statement as written is false; each of the five extra hypotheses is needed *)
+(** * The statement as written is false; each of the four extra hypotheses is needed *)
 Lemma bounds_forall net f :
   (forall e x, In (e, x) (combine net f) -> fe_lower e <= x <= fe_upper e) ->
   Forall (fun p => fe_lower (fst p) <= snd p <= fe_upper (fst p)) (combine net f).
@@ -571,7 +569,7 @@ Definition nwA : network :=
 
 Example nwA_cex :
   stmt_hyps_b nwA 0 [] = true /\
-  e1_caps nwA 0 = false /\ e2_aub nwA 0 [] = true /\ e3_start nwA = true /\ e4_service nwA 0 = true /\ e5_nolimit nwA 0 [] = true /\
+  e1_caps nwA 0 = false /\ e2_aub nwA 0 [] = true /\ e3_start nwA = true /\ e4_service nwA 0 = true /\
   ~ exists f, feasible (build_flow_network nwA 0 []) f = true.
 Proof.
   repeat (split; [vm_compute; reflexivity|]).
@@ -581,17 +579,17 @@ Qed.
 Theorem circulation_feasible_refuted : ~ stmt_circulation_feasible.
 Proof.
   intros H. rewrite stmt_circulation_feasible_unfold in H.
-  destruct nwA_cex as (HS & _ & _ & _ & _ & _ & HN). apply HN. apply H. apply stmt_hyps_b_sound. exact HS.
+  destruct nwA_cex as (HS & _ & _ & _ & _ & HN). apply HN. apply H. apply stmt_hyps_b_sound. exact HS.
 Qed.
 
-(** ** E2: no demand, type limit -1: the arc overflow start depot -> overflow end depot has bounds [0, -1] *)
+(** ** E2: no service trips, no slots, type limit -1: the arc overflow start depot -> overflow end depot has bounds [0, -1] *)
 Definition nwB : network :=
   mk_nw [(SD 0, sdnode 0); (ED 1, ednode 0)] [(0, (dep 0 5, SD 0, ED 1))] (0, SD 0, ED 1) [] [] [SD 0] [ED 1]
         [vt1 (Some (-1))].
 
 Example nwB_cex :
   stmt_hyps_b nwB 0 [] = true /\
-  e1_caps nwB 0 = true /\ e2_aub nwB 0 [] = false /\ e3_start nwB = true /\ e4_service nwB 0 = true /\ e5_nolimit nwB 0 [] = true /\
+  e1_caps nwB 0 = true /\ e2_aub nwB 0 [] = false /\ e3_start nwB = true /\ e4_service nwB 0 = true /\
   ~ exists f, feasible (build_flow_network nwB 0 []) f = true.
 Proof.
   repeat (split; [vm_compute; reflexivity|]).
@@ -607,7 +605,7 @@ Definition nwC : network :=
 
 Example nwC_cex :
   stmt_hyps_b nwC 0 [] = true /\
-  e1_caps nwC 0 = true /\ e2_aub nwC 0 [] = true /\ e3_start nwC = false /\ e4_service nwC 0 = true /\ e5_nolimit nwC 0 [] = true /\
+  e1_caps nwC 0 = true /\ e2_aub nwC 0 [] = true /\ e3_start nwC = false /\ e4_service nwC 0 = true /\
   ~ exists f, feasible (build_flow_network nwC 0 []) f = true.
 Proof.
   repeat (split; [vm_compute; reflexivity|]).
@@ -623,34 +621,79 @@ Definition nwD : network :=
 
 Example nwD_cex :
   stmt_hyps_b nwD 0 [] = true /\
-  e1_caps nwD 0 = true /\ e2_aub nwD 0 [] = true /\ e3_start nwD = true /\ e4_service nwD 0 = false /\ e5_nolimit nwD 0 [] = true /\
+  e1_caps nwD 0 = true /\ e2_aub nwD 0 [] = true /\ e3_start nwD = true /\ e4_service nwD 0 = false /\
   ~ exists f, feasible (build_flow_network nwD 0 []) f = true.
 Proof.
   repeat (split; [vm_compute; reflexivity|]).
   intros [f Hf]. feas_facts Hf 4. cons_at Hc 17. lia.
 Qed.
 
-(** ** E5: a trip of the unlimited type 1 listed as service trip of type 0 (limit 1): its node edge demands
-       min(3, 100) = 3, the only arc into it carries at most 1 *)
+(** ** the former E5 ("a trip without formation limit demands no more than an arc carries") is automatic since the
+       repair "fix: flow arcs carry as many vehicles as the longest formation of the type's trips" ([aub_ge_mf]).  Its
+       former counterexample: a trip of the unlimited type 1 listed as service trip of type 0 (limit 1); its node edge
+       demands min(3, 100) = 3, the only arc into it carried at most 1 under the pre-repair bound and carries 100 now *)
 Definition nwE : network :=
   mk_nw [(SD 0, sdnode 0); (ED 1, ednode 0); (SV 2, trip 1 3)]
         [(0, (dep 0 5, SD 0, ED 1))] (0, SD 0, ED 1) [(0, [SV 2])] [] [SD 0] [ED 1] [vt1 (Some 1); vt1 None].
 
-Example nwE_cex :
-  stmt_hyps_b nwE 0 [] = true /\
-  e1_caps nwE 0 = true /\ e2_aub nwE 0 [] = true /\ e3_start nwE = true /\ e4_service nwE 0 = true /\ e5_nolimit nwE 0 [] = false /\
-  ~ exists f, feasible (build_flow_network nwE 0 []) f = true.
+Example nwE_now_feasible :
+  stmt_hyps_b nwE 0 [] = true /\ extra_hyps_b nwE 0 [] = true /\ arc_upper_bound nwE 0 [] = 100 /\
+  feasible (build_flow_network nwE 0 []) (circ_flow nwE 0 []) = true.
+Proof. vm_compute. auto. Qed.
+
+(** * The pre-repair arc bound, and the network built with it *)
+(* before the repair "fix: flow arcs carry as many vehicles as the longest formation of the type's trips": the type's
+   formation limit (or 100) and the largest slot allotment only *)
+Definition arc_upper_bound_prefix (nw : network) (ty : Z) (slots : list (node_id * Z)) : Z :=
+  fold_left Z.max (map snd slots) (type_limit_or_100 nw ty).
+Definition recap (u : Z) (e : fedge) : fedge :=
+  {| fe_tail := fe_tail e; fe_head := fe_head e; fe_lower := fe_lower e; fe_upper := u; fe_cost := fe_cost e |}.
+(* every connecting arc is capped at [arc_upper_bound] ([connecting_upper]); the pre-repair network is the same network
+   with the connecting arcs capped at [arc_upper_bound_prefix] *)
+Definition build_flow_network_prefix (nw : network) (ty : Z) (slots : list (node_id * Z)) : fnet :=
+  service_edges nw ty ++ maint_edges nw slots ++
+  map (recap (arc_upper_bound_prefix nw ty slots)) (connecting_edges nw ty slots) ++ depot_edges nw ty slots.
+
+Lemma arcs_into_upper nw ty slots hid hc e :
+  In e (arcs_into nw ty slots hid hc) -> fe_upper e = arc_upper_bound nw ty slots.
 Proof.
-  repeat (split; [vm_compute; reflexivity|]).
-  intros [f Hf]. feas_facts Hf 5. cons_at Hc 8. lia.
+  rewrite arcs_into_eq. intros Hin. apply in_flat_map in Hin. destruct Hin as (p & _ & Hin).
+  unfold arc_of in Hin. destruct (tail_code nw slots p) as [tc|]; [|destruct Hin].
+  destruct Hin as [<-|[]]. reflexivity.
 Qed.
 
-(** * A LOADED network, from an instance passing [valid_instance_b], on which the circulation is infeasible:
-      the hypothesis "formation limit <= arc_upper_bound" of the statement is a real restriction.
-      One vehicle type of capacity 1 without formation limit (arcs capped at 100), no depots listed (only the overflow
-      depot), one trip with 150 passengers on a route segment with maximalFormationCount 200: the node edge demands
-      min(150, 200) = 150 vehicles, the only arc into it carries at most 100.  The implementation panics on this
-      instance at network_simplex(..).unwrap() (min_cost_flow_solver.rs). *)
+Lemma connecting_upper nw ty slots e :
+  In e (connecting_edges nw ty slots) -> fe_upper e = arc_upper_bound nw ty slots.
+Proof.
+  unfold connecting_edges. rewrite !in_app_iff, !in_flat_map.
+  intros [(x & _ & Hin)|[([m c] & _ & Hin)|(d & _ & Hin)]]; exact (arcs_into_upper _ _ _ _ _ _ Hin).
+Qed.
+
+(* the two bounds differ only by the new term: the current one is the maximum of the pre-repair one and the node edge
+   capacities of the type's service trips; the current network is the pre-repair builder with the current bound *)
+Lemma arc_upper_bound_prefix_le nw ty slots : arc_upper_bound_prefix nw ty slots <= arc_upper_bound nw ty slots.
+Proof. unfold arc_upper_bound, arc_upper_bound_prefix. apply fold_max_ge. Qed.
+
+Lemma recap_same u e : fe_upper e = u -> recap u e = e.
+Proof. intros <-. destruct e; reflexivity. Qed.
+
+Lemma build_flow_network_recap nw ty slots :
+  build_flow_network nw ty slots =
+  service_edges nw ty ++ maint_edges nw slots ++
+  map (recap (arc_upper_bound nw ty slots)) (connecting_edges nw ty slots) ++ depot_edges nw ty slots.
+Proof.
+  unfold build_flow_network. f_equal. f_equal. f_equal.
+  rewrite <- (map_id (connecting_edges nw ty slots)) at 1. apply map_ext_in.
+  intros e He. symmetry. apply recap_same. exact (connecting_upper nw ty slots e He).
+Qed.
+
+(** * The instance on which the pre-repair arc bound made the circulation infeasible
+      A LOADED network, from an instance passing [valid_instance_b].
+      One vehicle type of capacity 1 without formation limit, no depots listed (only the overflow depot), one trip with
+      150 passengers on a route segment with maximalFormationCount 200: the node edge demands min(150, 200) = 150
+      vehicles.  Under the pre-repair bound the only arc into it carried at most 100 (arcs capped at the type's limit,
+      or 100), the circulation was infeasible and the implementation panicked at network_simplex(..).unwrap()
+      (min_cost_flow_solver.rs).  Now the arcs carry 200 and the circulation is feasible. *)
 Definition inst3 : instance := {|
   i_types := [ {| vt_cap := 1; vt_seats := 1; vt_limit := None |} ];
   i_nlocs := 2;
@@ -664,14 +707,24 @@ Definition inst3 : instance := {|
                  c_staff := 1; c_service := 1; c_maint := 3; c_dh := 5; c_idle := 2 |} |}.
 Definition nw3 : network := match load inst3 [] with Ok nw => nw | _ => nw_dflt end.
 
-Example tight_arc_bound_refutes :
+(* regression: every hypothesis of the statement (now also the bound on the formation limit) and the four extra ones
+   hold, the arcs carry 200, and the explicit circulation is feasible *)
+Example tight_arc_bound_repaired :
   LoadStmts.valid_instance_b inst3 = true /\ load inst3 [] = Ok nw3 /\
-  (* every hypothesis of the statement but the bound on the formation limit, and all five extra ones *)
-  h_wf nw3 0 = true /\ h_codes nw3 0 [] = true /\ h_nondepot nw3 0 [] = true /\ h_slots nw3 0 [] = true /\
-  h_req nw3 0 = true /\ h_od nw3 = true /\ h_total nw3 0 [] = true /\ h_preds nw3 0 [] = true /\
-  extra_hyps_b nw3 0 [] = true /\
-  h_lim nw3 0 [] = false /\
-  ~ exists f, feasible (build_flow_network nw3 0 []) f = true.
+  stmt_hyps_b nw3 0 [] = true /\ extra_hyps_b nw3 0 [] = true /\
+  arc_upper_bound_prefix nw3 0 [] = 100 /\ arc_upper_bound nw3 0 [] = 200 /\
+  feasible (build_flow_network nw3 0 []) (circ_flow nw3 0 []) = true /\
+  circ_flow nw3 0 [] = [150; 150; 0; 150; 150].
+Proof. vm_compute. repeat split; reflexivity. Qed.
+
+(* the pre-repair bound made it infeasible: the network with the connecting arcs capped at [arc_upper_bound_prefix] has
+   no feasible circulation (node edge [150, 200], the only arc into it [0, 100]) *)
+Example tight_arc_bound_prefix_refutes :
+  h_lim nw3 0 [] = true /\
+  forallb (fun s => match maximal_formation_count_for nw3 s with
+                    | Some l => (0 <=? l) && (l <=? arc_upper_bound_prefix nw3 0 []) | None => true end)
+          (service_nodes nw3 0) = false /\
+  ~ exists f, feasible (build_flow_network_prefix nw3 0 []) f = true.
 Proof.
   repeat (split; [vm_compute; reflexivity|]).
   intros [f Hf]. feas_facts Hf 5. cons_at Hc 8. lia.
@@ -1025,9 +1078,6 @@ Proof.
     unfold can_reach, can_reach_nodes. rewrite Lov_en_nd. destruct K as [K|K]; destruct (nd N x); try discriminate K; reflexivity.
 Qed.
 
-Hypothesis Hlim : forall s l, In s (service_nodes N ty) -> maximal_formation_count_for N s = Some l ->
-  l <= arc_upper_bound N ty slots.
-
 Theorem Lcirculation_feasible : exists f, feasible (build_flow_network N ty slots) f = true.
 Proof.
   apply circulation_feasible_under_typed.
@@ -1036,102 +1086,59 @@ Proof.
   - exact Lcodes.
   - intros x Hx. destruct (Lact_nd x Hx) as [_ [K|K]]; destruct (nd N x); try discriminate K; reflexivity.
   - intros m c Hin. split; [exact (proj1 (proj2 (Hsl m c Hin)))|].
-    unfold arc_upper_bound. apply fold_max_in. change c with (snd (m, c)). apply in_map. exact Hin.
+    exact (aub_ge_slot N ty slots m c Hin).
   - intros s Hs. destruct (Lsvc_node s Hs) as (k & st & _ & _ & E & _ & Hst).
     split; [exact (Lreq_nonneg ty s st E Hst)|].
     destruct (maximal_formation_count_for N s) as [l|] eqn:El; [|exact I].
-    split; [exact (Lmfc_nonneg s st l E Hst El)|exact (Hlim s l Hs El)].
+    split; [exact (Lmfc_nonneg s st l E Hst El)|].
+    pose proof (aub_ge_mf N ty slots s Hs) as Hmf. rewrite El in Hmf. exact Hmf.
   - rewrite Lov_id. exact Lov_in_ids.
   - rewrite Lov_id. exact Ltotal_le.
   - intros x Hx. rewrite Lov_id, Lov_start, Lov_end. exact (Lpreds x Hx).
   - intros d _. apply Lcaps_nonneg.
-  - unfold arc_upper_bound. etransitivity; [|apply fold_max_ge].
+  - etransitivity; [|apply aub_ge_tlim].
     unfold type_limit_or_100. destruct Lvtype_ty as (vt & Ev). rewrite Ev.
     destruct (vt_limit vt) as [a|] eqn:Ea; [|lia]. destruct U as (U1 & _). exact (U1 vt a (Lvtype_in ty vt Ev) Ea).
   - rewrite Lov_id, Lov_start. eexists. split; [exact Lov_sn_nd|reflexivity].
-  - exact Lsvc_type.
+  - intros s Hs. exact (proj1 (Lsvc_type s Hs)).
 Qed.
 End Loaded.
 
 (* On a network loaded from an instance that conforms to the input format ([valid_instance_b]) and has no negative
-   limits / capacities ([inst_unsigned]: they are unsigned in the implementation), for allotted slots that are distinct
-   maintenance nodes within their track counts, the circulation is feasible provided no trip's formation limit exceeds
-   the arc bound.  [tight_arc_bound_refutes] shows that this last hypothesis cannot be dropped. *)
+   limits / capacities ([inst_unsigned]: they are unsigned in the implementation), for every listed vehicle type and
+   allotted slots that are distinct maintenance nodes within their track counts, the circulation is feasible.  The
+   former hypothesis "no trip's formation limit exceeds the arc bound" is automatic since the repair "fix: flow arcs
+   carry as many vehicles as the longest formation of the type's trips" ([aub_ge_mf]); [tight_arc_bound_prefix_refutes]
+   shows that it was a real restriction under the pre-repair bound. *)
 Theorem circulation_feasible_loaded :
   forall i perm nw ty slots,
     valid_instance_b i = true -> perm_ok i perm -> inst_unsigned i -> load i perm = Ok nw ->
     In ty (type_ids nw) ->
     NoDup (map fst slots) ->
     (forall m c, In (m, c) slots -> In m (nw_maint nw) /\ 0 <= c <= track_count nw m) ->
-    (forall s l, In s (service_nodes nw ty) -> maximal_formation_count_for nw s = Some l ->
-       l <= arc_upper_bound nw ty slots) ->
     exists f, feasible (build_flow_network nw ty slots) f = true.
 Proof.
-  intros i perm nw ty slots V P U L Hty Hnd Hsl Hlim.
+  intros i perm nw ty slots V P U L Hty Hnd Hsl.
   destruct (load_wf_partial i perm nw V P L) as (WF & _).
   destruct (load_inv i perm nw V L) as (trips & n0 & p1 & E & Hn0 & R & G & Ne). rewrite E in *.
   apply (Lcirculation_feasible i perm trips (Len n0) p1 V U); auto.
   intros s Hs. rewrite <- R. exact Hs.
 Qed.
 
-Lemma limited_type_bound nw ty slots s vt a l :
-  vehicle_type_for nw s = ty -> vtype_of nw ty = Some vt -> vt_limit vt = Some a ->
-  maximal_formation_count_for nw s = Some l -> l <= arc_upper_bound nw ty slots.
+(* the regression instance again, through the general theorem *)
+Example tight_arc_bound_repaired_loaded : exists f, feasible (build_flow_network nw3 0 []) f = true.
 Proof.
-  intros T Ev Ea. unfold maximal_formation_count_for. rewrite T, Ev, Ea.
-  assert (B : a <= arc_upper_bound nw ty slots).
-  { unfold arc_upper_bound. etransitivity; [|apply fold_max_ge]. unfold type_limit_or_100. rewrite Ev, Ea. lia. }
-  destruct (match nd nw s with NService s0 => st_limit s0 | _ => None end) as [b|]; intros Q; inversion Q; subst l; lia.
-Qed.
-
-(* ... in particular for every vehicle type that has a formation limit, without further hypothesis *)
-Corollary circulation_feasible_loaded_limited :
-  forall i perm nw ty slots vt a,
-    valid_instance_b i = true -> perm_ok i perm -> inst_unsigned i -> load i perm = Ok nw ->
-    In ty (type_ids nw) -> vtype_of nw ty = Some vt -> vt_limit vt = Some a ->
-    NoDup (map fst slots) ->
-    (forall m c, In (m, c) slots -> In m (nw_maint nw) /\ 0 <= c <= track_count nw m) ->
-    exists f, feasible (build_flow_network nw ty slots) f = true.
-Proof.
-  intros i perm nw ty slots vt a V P U L Hty Ev Ea Hnd Hsl.
-  apply (circulation_feasible_loaded i perm nw ty slots V P U L Hty Hnd Hsl).
-  intros s l Hs El.
-  assert (T : vehicle_type_for nw s = ty).
-  { destruct (load_inv i perm nw V L) as (trips & n0 & p1 & E & _). rewrite E in *.
-    exact (proj2 (Lsvc_type i perm trips (Len n0) p1 ty Hty s Hs)). }
-  exact (limited_type_bound nw ty slots s vt a l T Ev Ea El).
-Qed.
-
-(* ... and for a type without limit as long as no route segment of the type carries a limit above 100 *)
-Corollary circulation_feasible_loaded_unlimited :
-  forall i perm nw ty slots,
-    valid_instance_b i = true -> perm_ok i perm -> inst_unsigned i -> load i perm = Ok nw ->
-    In ty (type_ids nw) ->
-    NoDup (map fst slots) ->
-    (forall m c, In (m, c) slots -> In m (nw_maint nw) /\ 0 <= c <= track_count nw m) ->
-    (forall r g l, In r (i_routes i) -> In g (r_segs r) -> rs_limit g = Some l -> l <= 100) ->
-    exists f, feasible (build_flow_network nw ty slots) f = true.
-Proof.
-  intros i perm nw ty slots V P U L Hty Hnd Hsl H100.
-  destruct (load_inv i perm nw V L) as (trips & n0 & p1 & E & _ & R & _).
-  assert (Hv : exists vt, vtype_of nw ty = Some vt).
-  { rewrite E in *. exact (Lvtype_ty i perm trips (Len n0) p1 ty Hty). }
-  destruct Hv as (vt & Ev). destruct (vt_limit vt) as [a|] eqn:Ea.
-  - exact (circulation_feasible_loaded_limited i perm nw ty slots vt a V P U L Hty Ev Ea Hnd Hsl).
-  - apply (circulation_feasible_loaded i perm nw ty slots V P U L Hty Hnd Hsl).
-    intros s l Hs El.
-    assert (B : 100 <= arc_upper_bound nw ty slots).
-    { unfold arc_upper_bound. etransitivity; [|apply fold_max_ge]. unfold type_limit_or_100. rewrite Ev, Ea. lia. }
-    assert (Q : l <= 100); [|lia].
-    rewrite E in Hs, El.
-    assert (Hty' : In ty (tids i)) by (rewrite E in Hty; exact Hty).
-    destruct (Lsvc_node i perm trips (Len n0) p1 ty Hty' s Hs) as (k & st & _ & _ & End & T & Hst).
-    unfold maximal_formation_count_for, vehicle_type_for in El. rewrite End, T in El.
-    rewrite <- E in El. rewrite Ev, Ea in El.
-    rewrite R in Hst. unfold trip_records in Hst. apply in_flat_map in Hst. destruct Hst as (d & Hd & Hst).
-    apply in_flat_map in Hst. destruct Hst as (sg & Hsg & Hst).
-    destruct (lookup_rseg i d sg) as [[r g]|] eqn:Elk; [|destruct Hst]. destruct Hst as [<-|[]].
-    cbn [st_limit] in El. apply lookup_in in Elk. destruct Elk as [E1 E2]. exact (H100 r g l E1 E2 El).
+  apply (circulation_feasible_loaded inst3 [] nw3 0 []).
+  - vm_compute. reflexivity.
+  - intros Q. discriminate Q.
+  - unfold inst_unsigned, inst3. cbn [i_types i_routes i_depots In]. split; [|split].
+    + intros vt l [<-|[]] Q. discriminate Q.
+    + intros r g l [<-|[]] [<-|[]] Q. cbn [rs_limit] in Q. inversion Q. lia.
+    + intros d [].
+  - vm_compute. reflexivity.
+  - vm_compute. left. reflexivity.
+  - constructor.
+  - intros m c [].
 Qed.
 
 (** * Non-vacuity: the loaded network [nw2] of FlowFacts2.v (two trips, one slot allotted) passes every check, and the
@@ -1144,31 +1151,39 @@ Proof. vm_compute. auto. Qed.
 
 (** * Summary
    - [circulation_feasible_refuted] : ~ stmt_circulation_feasible.  The statement quantifies over arbitrary [network]
-     records; five facts every loaded network has are missing from its hypotheses.  Each of them is needed: for each
-     one, [nwA_cex] .. [nwE_cex] give a network that satisfies every hypothesis of the statement and the other four,
+     records; four facts every loaded network has are missing from its hypotheses.  Each of them is needed: for each
+     one, [nwA_cex] .. [nwD_cex] give a network that satisfies every hypothesis of the statement and the other three,
      and whose circulation problem has NO feasible solution:
        E1 no depot has a negative capacity for the type (the depot edge [0, capacity] would be empty);
-       E2 the arc bound (the type's formation limit, or 100) is not negative;
+       E2 the arc bound is not negative (it is negative only when the type's formation limit is negative and there are
+          neither service trips of the type nor allotted slots);
        E3 the node the depot table names as start node of the overflow depot is a start-depot node of that depot
           (otherwise the arcs "from the overflow depot" leave another depot's right copy);
        E4 the nodes listed as service trips of the type are service nodes (an unallotted maintenance node has no
-          outgoing arc) or demand nothing;
-       E5 a trip without formation limit (node edge capacity 100) demands no more than an arc carries; automatic when
-          the trip is a trip of the type whose network is built.
-   - [circulation_feasible_under_wf] : the statement exactly as written plus E1-E5;
-     [circulation_feasible_under_typed] : with E4, E5 replaced by "service trips of the type are service nodes of that
-     type"; [circulation_feasible_core] / [circ_flow_feasible] : the explicit flow [circ_flow] (demand(x) units along
-     overflow start depot -> x -> overflow end depot, total on the overflow depot edge, 0 elsewhere) is feasible under
-     [circ_hyps], which needs neither [net_wf_b] nor the index part of [codes_distinct];
-     [circulation_feasible_checked] : all hypotheses as executable checks ([stmt_hyps_b], [extra_hyps_b]).
-   - loaded networks: [circulation_feasible_loaded] discharges every hypothesis from [valid_instance_b],
-     [inst_unsigned], [perm_ok] and the shape of the slot allotment, EXCEPT "formation limit <= arc_upper_bound";
-     that one is automatic for a type with a limit ([circulation_feasible_loaded_limited]) and for a type without limit
-     when no route segment carries a limit above 100 ([circulation_feasible_loaded_unlimited]).
-   - it cannot be dropped: [tight_arc_bound_refutes] is an instance that passes [valid_instance_b] (type without limit,
-     capacity 1; one trip with 150 passengers on a segment with maximalFormationCount 200; no depots listed) whose
-     loaded network has an infeasible circulation problem: node edge [150, 200], the only arc into it [0, 100].  The
-     implementation panics on it (network_simplex(..).unwrap() on None). *)
+          outgoing arc) or demand nothing.
+     The former E5 ("a trip without formation limit, node edge capacity 100, demands no more than an arc carries") is
+     gone: since the repair "fix: flow arcs carry as many vehicles as the longest formation of the type's trips"
+     [arc_upper_bound] dominates the capacity of the node edge of every service trip of the type ([aub_ge_mf]; also
+     [aub_ge_tlim], [aub_ge_slot]); its former counterexample now has a feasible circulation ([nwE_now_feasible]).
+   - [circulation_feasible_under_wf] : the statement exactly as written plus E1-E4;
+     [circulation_feasible_under_typed] : with E4 replaced by "the nodes listed as service trips of the type are
+     service nodes"; [circulation_feasible_core] / [circ_flow_feasible] : the explicit flow [circ_flow] (demand(x)
+     units along overflow start depot -> x -> overflow end depot, total on the overflow depot edge, 0 elsewhere) is
+     feasible under [circ_hyps], which needs neither [net_wf_b] nor the index part of [codes_distinct];
+     [circulation_feasible_checked] : all hypotheses as executable checks ([stmt_hyps_b], [extra_hyps_b] = E1-E4).
+   - loaded networks: [circulation_feasible_loaded] discharges EVERY hypothesis from [valid_instance_b],
+     [inst_unsigned], [perm_ok] and the shape of the slot allotment (distinct maintenance nodes within their track
+     counts), for every listed vehicle type.  The formerly remaining hypothesis "formation limit <= arc_upper_bound"
+     (and with it the special cases for types with a limit / segments with limits up to 100) is automatic under the
+     repaired bound.
+   - regression: [inst3] passes [valid_instance_b] (type without limit, capacity 1; one trip with 150 passengers on a
+     segment with maximalFormationCount 200; no depots listed).  Under the pre-repair bound [arc_upper_bound_prefix]
+     (type limit or 100, and the slot allotments) its loaded network had an infeasible circulation problem: node edge
+     [150, 200], the only arc into it [0, 100] ([tight_arc_bound_prefix_refutes], against
+     [build_flow_network_prefix]; [build_flow_network_recap] / [connecting_upper] show that this builder with the
+     current bound is [build_flow_network]); the implementation panicked on it (network_simplex(..).unwrap() on
+     None).  Now the arcs carry 200 and [circ_flow] is feasible ([tight_arc_bound_repaired], by computation;
+     [tight_arc_bound_repaired_loaded], through [circulation_feasible_loaded]). *)
 Print Assumptions circulation_feasible_refuted.
 Print Assumptions circ_flow_feasible.
 Print Assumptions circulation_feasible_core.
@@ -1179,9 +1194,11 @@ Print Assumptions nwA_cex.
 Print Assumptions nwB_cex.
 Print Assumptions nwC_cex.
 Print Assumptions nwD_cex.
-Print Assumptions nwE_cex.
-Print Assumptions tight_arc_bound_refutes.
+Print Assumptions nwE_now_feasible.
+Print Assumptions build_flow_network_recap.
+Print Assumptions arc_upper_bound_prefix_le.
+Print Assumptions tight_arc_bound_repaired.
+Print Assumptions tight_arc_bound_prefix_refutes.
 Print Assumptions circulation_feasible_loaded.
-Print Assumptions circulation_feasible_loaded_limited.
-Print Assumptions circulation_feasible_loaded_unlimited.
+Print Assumptions tight_arc_bound_repaired_loaded.
 Print Assumptions nw2_checked.
